@@ -697,7 +697,7 @@ def replay_c08(d, case):
         if 'grid_level' not in out or not np.array_equal(np.asarray(out['grid_level'], dtype=float), np.asarray(case['grid_level'], dtype=float)):
             return True, 'grid_level differs'
     for k in ('x', 'y'):
-        if not np.allclose(out[k], case[k], rtol=1e-12, atol=0):
+        if not np.allclose(out[k], case[k], rtol=case.get('coord_rtol', 1e-12), atol=0):
             return True, '%s coordinates differ' % k
     return False, 'covering grid equal'
 
